@@ -16,9 +16,6 @@ theorem Proved.elemSafe_eq (s : Stmt) : Proved.stmtElemSafe s = s.elemSafe := by
 theorem Proved.plainOpts_eq (s : Stmt) : Proved.stmtPlainOpts s = s.plainOpts := by
   cases s <;> rfl
 
-theorem Proved.noComment_eq (k : COpt) : Proved.coptNoComment k = k.noComment := by
-  cases k <;> rfl
-
 theorem Proved.all_eq {α : Type} (l : List α) (f g : α → Bool) (h : ∀ x, f x = g x) : l.all f = l.all g := by
   induction l with
   | nil => rfl
@@ -28,7 +25,6 @@ theorem Proved.all_eq {α : Type} (l : List α) (f g : α → Bool) (h : ∀ x, 
 theorem Proved.pairOK_spec (up : Bool) (dbO dbN : DB) (h : Proved.pairOK up dbO dbN = true) :
     (∀ tb ∈ dbO ++ dbN, tb.name ≠ "" ∧ tb.name ≠ Migration.defaultMigrationTable) ∧
     (∀ tb ∈ dbO ++ dbN, tb.fks = []) ∧
-    (∀ tb ∈ dbO ++ dbN, ∀ c ∈ tb.cols, ∀ k ∈ c.opts, k.noComment = true) ∧
     (∀ tbO ∈ dbO, ∀ tbN ∈ dbN, tbO.name = tbN.name →
       Abs.OrderCompatible tbN.colNames tbO.colNames ∧ (∀ n ∈ tbN.colNames ++ tbO.colNames, n ≠ "") ∧ tbO.pk = tbN.pk ∧
       (∀ s ∈ tbN.idxs, ∀ o ∈ tbO.idxs, o.name = s.name → o ≠ s →
@@ -37,24 +33,17 @@ theorem Proved.pairOK_spec (up : Bool) (dbO dbN : DB) (h : Proved.pairOK up dbO 
   simp only [Bool.and_eq_true] at h
   obtain ⟨h1, h2⟩ := h
   have ht : ∀ tb ∈ dbO ++ dbN, Proved.tableOK tb = true := List.all_eq_true.mp h1
-  refine ⟨?_, ?_, ?_, ?_⟩
+  refine ⟨?_, ?_, ?_⟩
   · intro tb htb
     have := ht tb htb
     unfold Proved.tableOK at this
     simp only [Bool.and_eq_true, bne_iff_ne, ne_eq] at this
-    exact ⟨this.1.1.1, this.1.1.2⟩
+    exact ⟨this.1.1, this.1.2⟩
   · intro tb htb
     have := ht tb htb
     unfold Proved.tableOK at this
     simp only [Bool.and_eq_true] at this
-    exact List.isEmpty_iff.mp this.1.2
-  · intro tb htb c hc k hk
-    have := ht tb htb
-    unfold Proved.tableOK at this
-    simp only [Bool.and_eq_true] at this
-    have := List.all_eq_true.mp (List.all_eq_true.mp this.2 c hc) k hk
-    rw [Proved.noComment_eq] at this
-    exact this
+    exact List.isEmpty_iff.mp this.2
   · intro tbO htbO tbN htbN hn
     have := List.all_eq_true.mp (List.all_eq_true.mp h2 tbO htbO) tbN htbN
     have hne : (tbO.name != tbN.name) = false := by simp [hn]
@@ -100,9 +89,9 @@ theorem proved_up (g : Globals) (rc : Bool) (old new : List Stmt) (dbO dbN : DB)
   unfold Proved.up at h
   simp only [Bool.and_eq_true] at h
   obtain ⟨hg, ho, hn, hpo, hpn⟩ := Proved.scripts_spec g old new h.1
-  obtain ⟨hnm, hnofk, hncm, hboth⟩ := Proved.pairOK_spec true dbO dbN h.2
+  obtain ⟨hnm, hnofk, hboth⟩ := Proved.pairOK_spec true dbO dbN h.2
   exact schema_up_any g hg rc old new dbO dbN ho hn hpo hpn heo hen
-    (fun tb htb => (hnm tb htb).2) hnofk hncm
+    (fun tb htb => (hnm tb htb).2) hnofk
     (fun a ha b hb e => by
       obtain ⟨x1, x2, x3, x4⟩ := hboth a ha b hb e
       refine ⟨x1, x2, x3, ?_⟩
@@ -118,9 +107,9 @@ theorem proved_down (g : Globals) (rc : Bool) (old new : List Stmt) (dbO dbN : D
   unfold Proved.down at h
   simp only [Bool.and_eq_true] at h
   obtain ⟨hg, ho, hn, hpo, hpn⟩ := Proved.scripts_spec g old new h.1
-  obtain ⟨hnm, hnofk, hncm, hboth⟩ := Proved.pairOK_spec false dbO dbN h.2
+  obtain ⟨hnm, hnofk, hboth⟩ := Proved.pairOK_spec false dbO dbN h.2
   exact schema_down_any g hg rc old new dbO dbN ho hn hpo hpn heo hen
-    (fun tb htb => (hnm tb htb).2) hnofk hncm
+    (fun tb htb => (hnm tb htb).2) hnofk
     (fun a ha b hb e => by
       obtain ⟨x1, x2, x3, x4⟩ := hboth a ha b hb e
       refine ⟨x1, x2, x3, ?_⟩
@@ -136,9 +125,9 @@ theorem proved_both (g : Globals) (rc : Bool) (old new : List Stmt) (dbO dbN : D
   unfold Proved.both Proved.up Proved.down at h
   simp only [Bool.and_eq_true] at h
   obtain ⟨hg, ho, hn, hpo, hpn⟩ := Proved.scripts_spec g old new h.1.1
-  obtain ⟨hnm, hnofk, hncm, hbothU⟩ := Proved.pairOK_spec true dbO dbN h.1.2
-  obtain ⟨_, _, _, hbothD⟩ := Proved.pairOK_spec false dbO dbN h.2.2
-  exact schema_c03_any g hg rc old new dbO dbN ho hn hpo hpn heo hen (fun tb htb => (hnm tb htb).2) hnofk hncm
+  obtain ⟨hnm, hnofk, hbothU⟩ := Proved.pairOK_spec true dbO dbN h.1.2
+  obtain ⟨_, _, hbothD⟩ := Proved.pairOK_spec false dbO dbN h.2.2
+  exact schema_c03_any g hg rc old new dbO dbN ho hn hpo hpn heo hen (fun tb htb => (hnm tb htb).2) hnofk
     (fun a ha b hb e => by
       obtain ⟨x1, x2, x3, x4⟩ := hbothU a ha b hb e
       obtain ⟨_, _, _, y4⟩ := hbothD a ha b hb e
